@@ -114,6 +114,12 @@ CHECKS = {
             'All programs of depth <= 2 (quick, ~11k) / 3 (thorough, ~100k): generic bases bound, forwarded, renamed, swapped, '
             're-declared, bound to unions and under Annotated; overriding with and without defaults; markers, per-field and '
             'class-level keyword-only; option sets per level.', 'section 7 C17'),
+    'C18': ('explicit TLA+ model of handler resolution (PaneHandlers.tla: sources F G C/CI E P R B, forms, deferral, target '
+            'kinds, shapes, directions), all 17.7k configurations enumerated by TLC with laws; each configuration built for real '
+            'with marker converters, the converter actually used read off the result and validated by the TLC trace spec',
+            'Exhaustive over subsets of the five handler sources x deferring subsets x callable / sequence / mapping form x '
+            '{scalar, protocol class, list subclass, class without converter, List[int]} x {field, List, Optional, Dict value, '
+            'tuple slot} x {from_data, into_data} x class handlers own / inherited, below a nested dataclass.', 'section 7 C18'),
 }
 
 NOT_YET = 'check not built yet (work in progress; see DESIGN.md section 12 build order)'
